@@ -68,11 +68,19 @@ PRED = "move |x: &{T}| {{ let r = {V} & 16 == 0; if r {{ model::matched(); }} r 
 PRED_SEQ = "move |x: &{T}| {V} & 16 == 0"
 
 
-def pred(kind, seq=False):
+PROBE_IN_PRED = {"ref": "probe_ref!(*x); ", "idx": "probe_idx!(*x); ", "val": "probe_val!(); "}
+
+
+def pred_(kind, seq=False, probe=False):
+    """probe=True: the pipeline has no transformation, so the predicate is the first closure that sees an element
+    and carries the native-replay gate"""
     from gen.dsl import KT, fderef
     t = KT[kind]
     v = fderef(kind)
-    return (PRED_SEQ if seq else PRED).format(T=t, V=v)
+    s = (PRED_SEQ if seq else PRED).format(T=t, V=v)
+    if probe and not seq:
+        s = s.replace("{ let r =", "{ " + PROBE_IN_PRED[kind] + "let r =", 1)
+    return s
 
 
 def item_val(kind, x):
@@ -88,6 +96,7 @@ def terminal_code(p, params, term, n):
     seq = p.seq()
     T = {"ref": "&u8", "val": "u8", "idx": "usize"}[k]
     v = lambda x: item_val(k, x)
+    pred = lambda kind, seq=False: pred_(kind, seq, probe=(not p.ops))
     s = ""
     if term == "count":
         s += f"    let r = {par}.count();\n    ORACLE.store(true, AO::Relaxed);\n    let e = {seq}.count();\n"
@@ -138,7 +147,9 @@ def terminal_code(p, params, term, n):
         s += f"    let pf = {pred(k, True)};\n    let r = {par}.any({pred(k)});\n    ORACLE.store(true, AO::Relaxed);\n    let e = {seq}.any(|x| pf(&x));\n"
         s += '    assert!(r == e, "any differs");\n    kani::cover!(e);\n    kani::cover!(!e);\n'
     elif term == "all":
-        s += f"    let pf = {pred(k, True)};\n    let r = {par}.all({pred(k)});\n    ORACLE.store(true, AO::Relaxed);\n    let e = {seq}.all(|x| pf(&x));\n"
+        # for `all` the early-exit trigger is a predicate evaluation that returns false
+        pall = pred(k).replace("if r { model::matched(); }", "if !r { model::matched(); }")
+        s += f"    let pf = {pred(k, True)};\n    let r = {par}.all({pall});\n    ORACLE.store(true, AO::Relaxed);\n    let e = {seq}.all(|x| pf(&x));\n"
         s += '    assert!(r == e, "all differs");\n    kani::cover!(e);\n    kani::cover!(!e);\n'
     elif term in ("find_with_index", "first_with_index"):
         if term == "find_with_index":
@@ -241,7 +252,7 @@ def count_vectors(ty, n):
     p = Pipeline("slice", chain_for(ty))
     kinds = [o.kind for o in p.ops]
     if "flat_map" in kinds:
-        return list(itertools.product((0, 1, 2), repeat=n))
+        return list(itertools.product((0, 1, 2), repeat=n))  # larger fan-outs (up to 4) are added as selected shapes
     if "filter" in kinds or "filter_map" in kinds:
         return list(itertools.product((0, 1), repeat=n))
     return [tuple([1] * n)]
@@ -258,9 +269,9 @@ def shape_name(owners, counts):
     return "o" + "".join(str(x) for x in owners) + "_k" + "".join(str(x) for x in counts)
 
 
-def tagged_prelude(tp, n, t, owners, obs):
+def tagged_prelude(tp, n, t, owners, obs, available=None):
     s = tp.decl()
-    s += f"    model::begin({n}, {t}, {owners_literal(owners)}, {obs});\n"
+    s += f"    model::begin({n}, {available or t}, {owners_literal(owners)}, {obs});\n"
     s += "    #[cfg(not(kani))]\n    { model::set_base(a.as_ptr() as usize); model::set_stride(core::mem::size_of::<(usize, u8)>()); }\n"
     return s
 
@@ -283,7 +294,7 @@ def tagged_multiset_eq(tp, out, msg="collect_x is not a permutation of the seque
 
 
 def collect_harness(prop, term, ty, src, n, t, c, owners, counts, obs=1, extra_pre="", check=None, tag="",
-                    chunk_expr=None, target=None, weight=None, count_calls=False, extra_post="", unwind=None):
+                    chunk_expr=None, target=None, weight=None, count_calls=False, extra_post="", unwind=None, available=None):
     """One query = one shape: owner table x outputs-per-element, values symbolic.
     term: collect_vec | collect | collect_x | collect_into (target = Rust expr of the pre-filled target and its
     prefix length is checked by `check`)."""
@@ -294,7 +305,7 @@ def collect_harness(prop, term, ty, src, n, t, c, owners, counts, obs=1, extra_p
         body = tp.decl() + f"    model::begin_unscheduled({max(t, 2)});\n"
         body += "    #[cfg(not(kani))]\n    { model::set_base(a.as_ptr() as usize); model::set_stride(core::mem::size_of::<(usize, u8)>()); }\n"
     else:
-        body = tagged_prelude(tp, n, t, owners, obs)
+        body = tagged_prelude(tp, n, t, owners, obs, available)
     body += extra_pre
     params = params_str(t, chunk_expr if chunk_expr else c)
     if check is not None:
@@ -307,6 +318,8 @@ def collect_harness(prop, term, ty, src, n, t, c, owners, counts, obs=1, extra_p
         raise ValueError(term)
     body += extra_post
     body += "    kani::cover!(true);\n"
+    if owners is None and t > 1:
+        body += "    kani::cover!(model::drainer() == 1);\n"
     name = cfg_name(prop, term, ty, src, f"n{n}", f"t{t}", f"c{c}", shape_name(owners if owners is not None else ["d"], counts), tag)
     return H(name, body, {"terminal": term, "type": ty, "kernel": KERNEL_OF_TYPE[ty], "src": src, "n": n, "threads": t,
                           "chunk": chunk_expr or f"Exact({c})",
